@@ -8,7 +8,7 @@ Every (interaction profile, chain of representation filters) below the bound is 
 
 The concrete new representation is never constrained.
 """
-import re
+import re, itertools
 
 from vf.core import Check, HarnessError
 
@@ -29,6 +29,10 @@ HDR = {'a': 0, 'b': 1}
 
 
 def C(v, lv): return Categorical(v, list(lv))
+
+
+SP_NAMES = {'sp1': ['q'], 'sp2': ['a', 'b'], 'sp3': ['c', 'd', 'e'], 'sp4': ['w', 'x', 'y', 'z']}
+N_NAMES = {'sp1': 1, 'sp2': 2, 'sp3': 3, 'sp4': 4, 'sparse': 3}      # distinct feature names one environment of that kind uses
 
 
 def make_actions(kind, v):
@@ -58,6 +62,9 @@ def make_actions(kind, v):
                                     [{'ns': [C('z', LV3), 3], 'v': 30}, {'ns': [C('x', LV3), 1], 'v': 10}, {'ns': [C('y', LV3), 2], 'v': 20}])
     if kind == 'lnscat':    return ([[{'kk': C('x', LV3), 'n': 1}, 10], [{'kk': C('y', LV3), 'n': 2}, 20]] if v == 0 else         # dict in a list
                                     [[{'kk': C('z', LV3), 'n': 3}, 30], [{'kk': C('x', LV3), 'n': 1}, 10], [{'kk': C('y', LV3), 'n': 2}, 20]])
+    if kind in SP_NAMES:    # one-key sparse actions; every kind has its own feature names, v=1 lists them in another order
+        names = SP_NAMES[kind]
+        return [{k: 1} for k in names] if v == 0 else [{k: 2} for k in names[1:] + names[:1]]
     if kind == 'mixed':     return [1, 'a'] if v == 0 else ['a', 2, 'b']
     if kind == 'labels':    return [['a'], ['a', 'b'], ['c']] if v == 0 else [['c'], ['a', 'b']]
     if kind == 'head':      return ([HeadDense([1, 0], dict(HDR)), HeadDense([0, 2], dict(HDR))] if v == 0 else
@@ -72,7 +79,7 @@ SPARSE_CTX = {'sparse', 'snest', 'sparsecat', 'nscat'}
 
 
 def make_context(akind, k):
-    if akind in ('num', 'mixed'): return None
+    if akind in ('num', 'mixed') or akind in SP_NAMES: return None
     if akind == 'str':            return 's%d' % k
     if akind in ('cat2', 'cat3'): return C('q', LVQ)
     if akind == 'sparsecat':      return {'c': k + 1, 'dd': C('q', LVQ)}
@@ -117,14 +124,19 @@ def make_fn(kind, akind, v, vals):
     raise ValueError(kind)
 
 
-NPAT = {'1': [0], '1b': [1], 'same': [0, 0], 'diff': [0, 1], 'aab': [0, 0, 1], 'aba': [0, 1, 0]}
+LEGACY_N = {'1': 'a', '1b': 'b', 'same': 'aa', 'diff': 'ab'}     # names used by older witnesses
+
+
+def pattern(n):
+    """Interaction pattern as a string over {a,b}: one letter per interaction, a = base action set, b = the different one."""
+    return LEGACY_N.get(n, n)
 
 
 def build_interactions(case):
     """-> (list of fresh interaction dicts, baseline per interaction) from the descriptor alone."""
     ak, rk, fk, lg = case['a'], case['r'], case['f'], case['lg']
     inters, base = [], []
-    for k, v in enumerate(NPAT[case['n']]):
+    for k, v in enumerate(0 if c == 'a' else 1 for c in pattern(case['n'])):
         A = make_actions(ak, v)
         n = len(A)
         it = {'context': make_context(ak, k), 'actions': A}
@@ -185,12 +197,17 @@ def chains(ops, length):
     yield from rec([], False)
 
 
+def n_feats(op):
+    if len(op) > 4: return op[4]          # an explicit (small) table, only used where every single environment fits into it
+    return N_LOOKUP if op[1] == 'lookup' else N_HASH
+
+
 def make_filter(op, batched):
     k = op[0]
     if k == 'repr':     return Repr(op[1], op[2])
     if k == 'flatten':  return Flatten()
     if k == 'sparse':   return Sparsify(context=op[1], action=op[2])
-    if k == 'dense':    return Densify(n_feats=N_LOOKUP if op[1] == 'lookup' else N_HASH, method=op[1], context=op[2], action=op[3])
+    if k == 'dense':    return Densify(n_feats=n_feats(op), method=op[1], context=op[2], action=op[3])
     if k == 'noise':
         if op[1] == 'c':  return Noise(context=('i', 1, 1))
         if op[1] == 'a1': return Noise(action=('i', 1, 1))
@@ -206,7 +223,7 @@ def apply_shortcut(envs, op):
     if k == 'repr':     return envs.repr(op[1], op[2])
     if k == 'flatten':  return envs.flatten()
     if k == 'sparse':   return envs.sparse(op[1], op[2])
-    if k == 'dense':    return envs.dense(N_LOOKUP if op[1] == 'lookup' else N_HASH, op[1], op[2], op[3])
+    if k == 'dense':    return envs.dense(n_feats(op), op[1], op[2], op[3])
     if k == 'noise':
         if op[1] == 'c':  return envs.noise(context=('i', 1, 1))
         if op[1] == 'a1': return envs.noise(action=('i', 1, 1))
@@ -307,30 +324,86 @@ def input_failures(inters, base):
     return fails, rewritten
 
 
+def raised(e, inters, base):
+    infails, rewritten = input_failures(inters, base)
+    return ([('chain', f'raises {type(e).__name__}', show(e)[:200])] + infails,
+            {'changed': False, 'sig': ('raise', type(e).__name__), 'rewritten': rewritten, 'hashcol': False})
+
+
 def evaluate(case):
     """Run one case on the real filters -> (failures, info).  failures: list of (target, mode, detail)."""
+    if case['via'] in ('envs2', 'reuse'): return evaluate_multi(case)
     inters, base = build_interactions(case)
     try:
         outs = run_chain(case, inters)
     except HarnessError:
         raise
     except Exception as e:   # noqa  (what coba raises is classified, not propagated)
-        infails, rewritten = input_failures(inters, base)
-        return ([('chain', f'raises {type(e).__name__}', show(e)[:200])] + infails,
-                {'changed': False, 'sig': ('raise', type(e).__name__), 'rewritten': rewritten})
+        return raised(e, inters, base)
+    return compare(case['chain'], inters, base, outs)
+
+
+def member_case(case, i):
+    """The single-environment case of member i of a two-environment / re-use case."""
+    c = {k: v for k, v in case.items() if k not in ('a2', 'order')}
+    c['a'] = case['a'] if i == 0 else case['a2']
+    c['via'] = 'envs' if case['via'] == 'envs2' else 'filters'
+    return c
+
+
+def evaluate_multi(case):
+    """via='envs2': ONE call of every shortcut on an Environments holding two environments with different data, members read
+    in case['order'].  via='reuse': ONE set of filter objects applied to stream A, then B, then A again.  Every stream is
+    compared with its own snapshot.  info['members'] = [(member index, failures)] in execution order."""
+    chain = case['chain']
+    data = [build_interactions(member_case(case, i)) for i in (0, 1)]
+    if case['via'] == 'envs2':
+        envs = Environments(ListEnv(data[0][0]), ListEnv(data[1][0]))
+        for op in chain: envs = apply_shortcut(envs, op)
+        runs = [(i, (lambda i=i: envs[i].read()), data[i]) for i in case['order']]
+    else:
+        filters, batched = [], False
+        for op in chain:
+            filters.append(make_filter(op, batched))
+            batched = (op[0] == 'batch') or (batched and op[0] == 'finalize')
+        def through(inters):
+            out = inters
+            for f in filters: out = f.filter(out)
+            return out
+        again = build_interactions(member_case(case, 0))
+        runs = [(0, (lambda: through(data[0][0])), data[0]), (1, (lambda: through(data[1][0])), data[1]), (0, (lambda: through(again[0])), again)]
+    allfails, members, sigs = [], [], []
+    info = {'changed': False, 'rewritten': False, 'hashcol': False}
+    for i, thunk, (inters, base) in runs:
+        try:
+            outs = [dict(o) for o in thunk()]
+        except HarnessError:
+            raise
+        except Exception as e:   # noqa
+            f, inf = raised(e, inters, base)
+        else:
+            f, inf = compare(chain, inters, base, outs)
+        members.append((i, f)); allfails += f; sigs.append(inf['sig'])
+        for k in ('changed', 'rewritten', 'hashcol'): info[k] = info[k] or inf[k]
+    info['sig'] = (case['via'], tuple(sigs)); info['members'] = members
+    return allfails, info
+
+
+def compare(chain, inters, base, outs):
+    """The oracle: what came out of the chain against the plain-data snapshot `base` taken before it ran."""
     flat, groups = unbatch_plain(outs)
     fails, rewritten = input_failures(inters, base)
-    info = {'changed': bool(groups), 'sig': None, 'rewritten': rewritten}
+    info = {'changed': bool(groups), 'sig': None, 'rewritten': rewritten, 'hashcol': False}
     if len(flat) != len(base):
         return fails + [('interactions', 'count changed', f'{len(base)} interactions in, {len(flat)} out')], dict(info, changed=True, sig='count')
-    hashing = any(op[0] == 'dense' and op[1] == 'hashing' and op[3] for op in case['chain'])
+    hashing = any(op[0] == 'dense' and op[1] == 'hashing' and op[3] for op in chain)
     for k, (old, b, new) in enumerate(zip(inters, base, flat)):
         A = new.get('actions')
         if A is None or len(A) != b['n']:
             fails.append(('actions', 'count changed', f'interaction {k}: {b["n"]} actions became {show(A)}')); continue
         if show(A) != b['shown']: info['changed'] = True
         if has_duplicates(A):
-            if hashing: info['sig'] = 'hash-collision'; continue      # documented limitation of the hashing trick (never seen with N_HASH=64)
+            if hashing: info['sig'] = 'hash-collision'; info['hashcol'] = True; continue      # documented limitation of the hashing trick (never seen with N_HASH=64)
             fails.append(('actions', 'distinct actions became equal', f'interaction {k}: {show(A)}')); continue
         for target in ('rewards', 'feedbacks'):
             if target not in b: continue
@@ -420,6 +493,23 @@ def diagnose(case, fails):
     that merely trips over what an earlier one left behind is not blamed); feature = its parameter bucket + the minimal
     input features without which the same failure disappears (found by differential re-runs on simpler cases)."""
     chain, via = case['chain'], case['via']
+    if via in ('envs2', 'reuse'):
+        # a member that also fails on its own is an ordinary finding; otherwise the sharing is what breaks it
+        out, seen = [], set()
+        for i, f in evaluate(case)[1]['members']:
+            if not f: continue
+            alone = member_case(case, i)
+            fa = evaluate(alone)[0]
+            if fa:
+                found = diagnose(alone, fa)
+            else:
+                comp = ('Environments.' if via == 'envs2' else '') + COMP[chain[-1][0]]
+                how = 'one shortcut call over two environments' if via == 'envs2' else 'filter object re-used on another stream'
+                found = [(f'{comp}|{WHAT[t] + m}|{(bucket(chain[-1], t) + " " + how).strip()}', same(f, t, m)[0][2], case)
+                         for t, m in sorted({(t, m) for t, m, _ in f})]
+            for item in found:
+                if item[0] not in seen: seen.add(item[0]); out.append(item)
+        return out
     eff = chain + ([['finalize']] if via == 'envs' else [])
     if not eff: raise HarnessError(f'the empty chain fails: {case} {fails}')
     if via == 'envs':
@@ -445,10 +535,14 @@ def diagnose(case, fails):
                 found = next((c for c in alone_candidates(cur, op) if reproduces(c, target, mode)), None)
             if found: cur = found
             else: quals.append('after ' + '+'.join(COMP[o[0]] for o in cur['chain'][:-1]))
-        if cur['n'] not in ('1', '1b'):
-            found = next((c for c in (dict(cur, n='1'), dict(cur, n='1b')) if reproduces(c, target, mode)), None)
-            if found: cur = found
-            else: quals.append(f'interactions={cur["n"]}')
+        n, shrunk = pattern(cur['n']), True          # drop interactions while the same failure stays
+        while len(n) > 1 and shrunk:
+            shrunk = False
+            for i in range(len(n)):
+                c = n[:i] + n[i + 1:]
+                if reproduces(dict(cur, n=c), target, mode): n, shrunk = c, True; break
+        cur = dict(cur, n=n)
+        if len(n) > 1: quals.append(f'interactions={n}')
         fam = ''
         for fld, tg in (('r', 'rewards'), ('f', 'feedbacks')):
             if cur[fld] in REORDERED and target in (tg, 'chain'):
@@ -493,6 +587,12 @@ def core_profiles(tier):
     return [p for p in profiles(tier) if p[1] in CORE_R + (None,) and p[2] in (None, 'list', 'lambda') and (p[3] is None or p[3][1] == -1)]
 
 
+PATTERN_KINDS = ('cat2', 'cat3', 'veccat', 'nestcat', 'num', 'sparsecat')
+MULTI_KINDS = ('sp1', 'sp2', 'sp3', 'sp4', 'sparse', 'cat3', 'vec', 'nestcat')
+MULTI_PROFILES = ([(r, None, None) for r in ('list', 'discrete', 'binary', 'lambda')] + [(r, 'lambda', None) for r in ('list', 'discrete', 'binary', 'lambda')]
+                  + [(r, None, ['sim', -1]) for r in ('list', 'discrete', 'binary', 'lambda')] + [(None, None, ['pure', 0])])
+
+
 class C10(Check):
     ID = 'C10'
     LEVEL = 'exploration'
@@ -501,10 +601,12 @@ class C10(Check):
             'Categoricals over 2/3 levels, tuples, lists, nested lists/tuples, sparse dicts incl. nested values, vectors/dicts holding '
             'Categoricals, Categoricals nested in list-in-list / tuple-in-tuple / dict-of-list / dict-in-list, mixed scalars, label lists, lazy HeadDense rows) x reward kind (list, tuple, BinaryReward, DiscreteReward in '
             'action order / reversed order / as mapping / partial with default, L1Reward, HammingReward, plain lambda) x one of {no extra, '
-            'IGL feedbacks of 5 kinds, logged action at first/last index with or without rewards} x 1..3 interactions (same / different '
-            'action sets). Chains: every sequence over the 36-op alphabet Repr(4x4) | Flatten | Sparsify(2x2) | Densify(2 methods x 2x2) | '
+            'IGL feedbacks of 5 kinds, logged action at first/last index with or without rewards} x interaction histories over two action sets (all of {A,B}^<=4 for 6 action kinds incl. categoricals, '
+            '<=3 interactions for the rest). Chains: every sequence over the 36-op alphabet Repr(4x4) | Flatten | Sparsify(2x2) | Densify(2 methods x 2x2) | '
             'Noise(context / action const / action callable) | Batch(1|2) | Unbatch | Finalize that respects batching, enumerated '
-            'exhaustively by length, simplest first; applied as filter objects and through the Environments shortcuts. A case is '
+            'exhaustively by length, simplest first; applied as filter objects and through the Environments shortcuts; plus, for 8 action kinds with different feature names/lengths, '
+            'every shortcut called ONCE on an Environments of two different environments (members read in both orders) and every filter OBJECT '
+            're-used on streams A, B, A, each stream against its own snapshot. A case is '
             'non-trivial when the chain ran and changed the actions\' representation, replaced a reward/feedback object or batched.')
     ASSUMPTIONS = [
         'the concrete new representation of actions/context is not constrained, only pairing by position and membership by ==',
@@ -517,6 +619,8 @@ class C10(Check):
         'contexts are present but never inspected; exceptions raised by a filter or by a re-represented reward function are violations because the statement promises a result for these inputs',
         'reward/feedback functions are built over independent copies of the actions (no aliasing with interaction["actions"]); what every action earns and a rendering of the actions are recorded as plain data BEFORE the chain runs',
         'secondary oracle: if a chain rewrites the caller\'s input action objects in place, the input interactions must still pair their own actions with their own rewards/feedbacks/logged action (reported under its own "caller-owned input" key); in-place edits without a pairing consequence (e.g. list rewards) are only counted (counter input_actions_rewritten_in_place)',
+        'multi-environment / re-use cases: Densify(lookup) tables are sized so that every SINGLE environment (shortcut) resp. all streams together (one re-used filter object) fit; collisions beyond n_feats within one table are documented behaviour and never generated',
+        'a two-environment or re-use case whose member also fails alone is reported under the ordinary key; only otherwise under "one shortcut call over two environments" / "filter object re-used on another stream"',
         'Cycle is not in the statement\'s list and is not explored; torch batches are absent from the environment',
         'a failing case is attributed to the filter ending its shortest failing prefix; a longer chain that only trips over an earlier filter\'s failure gets no key of its own',
     ]
@@ -528,7 +632,7 @@ class C10(Check):
                   'chain of length 2 over a 13-op core alphabet x core profiles; thorough: length <=2 over the full alphabet x all profiles, '
                   'length 2 (Environments) and length 3 (filters) over the core alphabet. Each case runs on fresh real filter objects and is '
                   'compared with the position pairing observed before the chain; exhaustive below the bound, nothing sampled.')
-    LEVEL_NOTE = ('small-scope: <=3 interactions of <=3 actions, chains <=2 (3); entry through filter objects and Environments shortcuts; '
+    LEVEL_NOTE = ('small-scope: <=4 interactions of <=4 actions, chains <=2 (3); entry through filter objects and Environments shortcuts; '
                   'representation itself unconstrained; hashing collisions, reward noise and torch batches excluded')
     MIN_NONTRIVIAL = {'quick': 50000, 'thorough': 1000000}
     CASE_TIMEOUT = 30
@@ -537,15 +641,19 @@ class C10(Check):
         quick = tier == 'quick'
         profs = profiles(tier)
         core = core_profiles(tier)
-        npats = ['1', 'same', 'diff', 'aab'] if quick else ['1', 'same', 'diff', 'aab', 'aba']
+        npats = ['a', 'aa', 'ab', 'aab'] if quick else ['a', 'aa', 'ab', 'aab', 'aba']
         plan = [(0, OPS_FULL, profs, npats, ('filters',)),
                 (1, OPS_FULL, profs, npats, ('filters', 'envs'))]
         if quick:
-            plan += [(2, OPS_CORE, core, ['1', 'diff', 'same'], ('filters',))]
+            plan += [(2, OPS_CORE, core, ['a', 'ab', 'aa'], ('filters',))]
         else:
-            plan += [(2, OPS_FULL, profs, ['1', 'same', 'diff'], ('filters',)),
-                     (2, OPS_CORE, core, ['1', 'diff'], ('envs',)),
-                     (3, OPS_CORE, core, ['1', 'diff'], ('filters',))]
+            plan += [(2, OPS_FULL, profs, ['a', 'aa', 'ab'], ('filters',)),
+                     (2, OPS_CORE, core, ['a', 'ab'], ('envs',)),
+                     (3, OPS_CORE, core, ['a', 'ab'], ('filters',))]
+        # every history over two action sets up to 4 interactions (A,A,B,A ...) for a sub-alphabet of action kinds
+        pats = [''.join(t) for L in (2, 3, 4) for t in itertools.product('ab', repeat=L) if ''.join(t) not in npats]
+        plan += [(1, OPS_FULL, [q for q in profs if q[0] in PATTERN_KINDS], pats, ('filters',))]
+        if not quick: plan += [(2, OPS_CORE, [q for q in core if q[0] in PATTERN_KINDS], pats, ('filters',))]
         for length, ops, pr, nps, vias in plan:
             chs = list(chains(ops, length))
             for via in vias:
@@ -554,13 +662,30 @@ class C10(Check):
                     for (ak, rk, fk, lg) in pr:
                         for ch in chs:
                             yield {'a': ak, 'r': rk, 'f': fk, 'lg': lg, 'n': n, 'chain': ch, 'via': via}
+        # two environments with different data under ONE shortcut call (read in both orders) / one filter object on streams A, B, A
+        one = [c for c in chains(OPS_FULL, 1)]
+        two = [] if quick else [c for c in chains(OPS_CORE, 2)]
+        for a1 in MULTI_KINDS:
+            for a2 in MULTI_KINDS:
+                if a1 == a2: continue
+                small = max(N_NAMES.get(a1, 0), N_NAMES.get(a2, 0))       # every single environment still fits into the table
+                extra = [[['dense', 'lookup', False, True, small]]] if small else []
+                for via, chs, orders in (('envs2', [c for c in one + two if not any(op[0] == 'finalize' for op in c)] + extra, ([0, 1], [1, 0])),
+                                         ('reuse', one, ([0, 1],))):
+                    for order in orders:
+                        for (rk, fk, lg) in MULTI_PROFILES:
+                            for ch in chs:
+                                yield {'a': a1, 'a2': a2, 'order': order, 'r': rk, 'f': fk, 'lg': lg, 'n': 'ab', 'chain': ch, 'via': via}
 
     def run_case(self, case, acc):
         fails, info = evaluate(case)
         acc.outcome(info['sig'])
         acc.count('chains_of_length_%d' % len(case['chain']))
         if case['via'] == 'envs': acc.count('through_Environments_shortcuts')
-        if info['sig'] == 'hash-collision': acc.count('hash_collision_not_demanded')
+        if case['via'] == 'envs2': acc.count('two_environments_under_one_shortcut_call')
+        if case['via'] == 'reuse': acc.count('filter_object_reused_on_streams_A_B_A')
+        if len(pattern(case['n'])) >= 3: acc.count('histories_of_3_or_4_interactions')
+        if info['hashcol']: acc.count('hash_collision_not_demanded')
         if info.get('rewritten'): acc.count('input_actions_rewritten_in_place')
         if fails: acc.count('failing_cases')
         if info['changed'] and not any(f[0] == 'chain' for f in fails): acc.mark_nontrivial()
